@@ -174,6 +174,25 @@ mod verif_c13_tree {
     structure_harness!(retain_structure_110, true, true, false);
     structure_harness!(retain_structure_111, true, true, true);
 
+    /// one top-level benchmark b[x, yy] with the real format!: the filter is asked exactly "b::x" and "b::yy", once
+    /// each, in order (concrete tree and verdicts: this harness is about the TEXT of the per-argument paths)
+    #[kani::proof]
+    #[kani::unwind(8)]
+    fn arg_paths_text() {
+        static XY: [&str; 2] = ["x", "yy"];
+        let mut tree = vec![EntryTree::Leaf { entry: AnyBenchEntry::Bench(&B), args: Some(vec![&XY[0], &XY[1]]) }];
+        let mut asked = 0usize; let mut ok = true;
+        EntryTree::retain(&mut tree, |p| {
+            let b = p.as_bytes();
+            let want: &[u8] = if asked == 0 { b"b::x" } else { b"b::yy" };
+            if b.len() != want.len() { ok = false; } else { let mut i = 0; while i < want.len() { if b[i] != want[i] { ok = false; } i += 1; } }
+            asked += 1;
+            true
+        });
+        assert!(asked == 2, "each runtime argument is decided separately");
+        assert!(ok, "a runtime argument is decided on the path benchmark::argument");
+    }
+
     /// the same tree with the real format!: the questions are exactly the paths m::a, m::b::1, m::b::22
     #[kani::proof]
     #[kani::solver(kissat)]
@@ -373,6 +392,7 @@ def build(S: Sources) -> Unit:
         KaniHarness("verif_c13_split::splitvec_insert", "bounded", bound="up to 5 inserts, every before/after pattern", covers="SplitVec::insert / split_index / all"),
         KaniHarness("verif_c13_filter::is_match_rule", "bounded", bound="up to 3 filters (any skip/positive pattern and insertion order), symbolic per-filter verdicts",
                     covers="FilterSet::include / exclude / is_match", tier="experimental"),
+        KaniHarness("verif_c13_tree::arg_paths_text", "bounded", bound="one top-level benchmark with the arguments x and yy, both kept", covers="EntryTree::retain: text of the per-argument paths (real format!; no answer within 25 min)", tier="experimental"),
         KaniHarness("verif_c13_filter::exact_is_whole_string_equality", "bounded", bound="candidate strings of up to 2 ASCII bytes against the filter \"ab\"", covers="Filter::is_match (Exact)"),
     ] + [KaniHarness(f"verif_c13_tree::retain_structure_{c}", "bounded", bound=f"one tree: group m {{ a, b[1, 22] }}, verdicts {c} (all 8 combinations are enumerated, one harness each); format! stubbed",
                      covers="EntryTree::retain (per-case decision, pruning of empty parents)", tier="experimental") for c in ("000", "001", "010", "011", "100", "101", "110", "111")] + [
